@@ -121,7 +121,11 @@ func c17Cases(level int) []SCase {
 	cases = append(cases, c07Cases(0)...)
 	e, _ := c08Cases(level)
 	cases = append(cases, e...)
-	cases = append(cases, c09Cases(level)...)
+	for _, c := range c09Cases(level) {
+		if !strings.HasPrefix(c.Axes["pos"], "anyof") { // (as below: a value only the other branch accepts meets the merged struct's field types, KF-C11-1)
+			cases = append(cases, c)
+		}
+	}
 	for _, c := range c04Family(0) {
 		if !strings.HasPrefix(c.Axes["pos"], "anyof") { // anyOf decodes into the merged struct (KF-C11-1): C11's subject
 			cases = append(cases, c)
